@@ -630,6 +630,7 @@ func createTimeFunctions() {
 			log.Infof("Sleeping for %v", durDur)
 			return s.Error(terminal.SleepWithContext(s.Context, durDur))
 		},
+		DontCache: true, // the point is the time spent (or the deadline hit), each time.
 	})
 	MustCreate(object.Extension{
 		Name:     "time.info",
